@@ -27,6 +27,11 @@
 //   mode: the twin's formatted text is what the same formatter yields synchronously on the original message (exact equality is
 //   required); logger mode: the twin carries the steady-clock interval [before the call, after it returned] and the rendered values
 //   must lie inside it.  Header: tcal=<ms> = (boot - process) rendering offset measured once, single-threaded, on a fresh message.
+//   "noapp" (process started with --no-app-first): bare handler; moveToOwnThread() is called and <per> messages are logged by the
+//   main thread while NO QCoreApplication exists (only the first <stall ms> of them, default 0: the rest right after); then the application object is created, the main thread logs <per> more while a
+//   second thread logs <per>; the main thread then spins its event loop until all 3 x <per> messages reached the sink and stops the
+//   logger thread through resetOwnThread().  Header: app_at_move=0|1.  Every delivery must be on ownThread(), never on the caller.
+//   Without --no-app-first the same scenario runs with the application object present from the start (app_at_move=1).
 // input line:  <mode> <producers> <messages each> <seed> <perturb 0..3> <sinkdelay 0..2> [<stall ms> [<tfmt 0|1>]]
 //   stall: the sink sleeps that long once, inside its first delivery (a stalled sink); the header reports the longest
 //   logging call (maxcall_us) so that a call blocking on the sink is visible
@@ -45,6 +50,7 @@
 #include <cstring>
 #include <functional>
 #include <iostream>
+#include <memory>
 #include <mutex>
 #include <random>
 #include <sstream>
@@ -171,7 +177,12 @@ static const QtMsgType TYPES[5] = { QtDebugMsg, QtInfoMsg, QtWarningMsg, QtCriti
 
 int main(int argc, char **argv)
 {
-    QCoreApplication app(argc, argv);
+    // "--no-app-first": the application object is NOT constructed up front; mode "noapp" then calls moveToOwnThread() and logs
+    // while no QCoreApplication exists and creates it afterwards (the header reports app_at_move=0)
+    const bool no_app_first = argc > 1 && !strcmp(argv[1], "--no-app-first");
+    std::unique_ptr<QCoreApplication> app;
+    if (!no_app_first) app.reset(new QCoreApplication(argc, argv));
+    int app_at_move = -1;
     {   // Qt's local-time machinery initialises lazily; do it once before any thread exists (harness hygiene: the dumps of
         // the producers call QDateTime::toString concurrently)
         QDateTime now = QDateTime::currentDateTime();
@@ -231,9 +242,10 @@ int main(int argc, char **argv)
         std::vector<std::thread> ths;
         const bool drainlast = mode == "drainlast";
         if (drainlast) mode = "drain";
-        if (mode == "bare" || mode == "drain") {
+        if (mode == "bare" || mode == "drain" || mode == "noapp") {
             OwnThreadHandler<SimplePipeline> h;
             build(h);
+            app_at_move = QCoreApplication::instance() ? 1 : 0;
             h.moveToOwnThread();
             g_worker_thread = h.ownThread();
             auto bare_send = [&](int p, int i, std::string &tw) {
@@ -256,7 +268,29 @@ int main(int argc, char **argv)
                     }
                     scrub(f); scrub(fn); scrub(c);
                 };
-            if (mode == "drain") {
+            if (mode == "noapp") {
+                // producer 0 = this (main) thread: <per> messages while no application object exists (with --no-app-first), then the
+                // QCoreApplication is created, then <per> more while producer 1 (a second thread) logs <per>; finally the main thread
+                // runs its event loop until every message has reached the sink (or 60 s), and the logger thread is stopped normally
+                n = 2; quotas = { 2 * per, per };
+                g_events.assign((size_t)per * 3 * 6 + 64, Ev { '?', 0, 0 });
+                tl_rng.seed(seed * 7919u + 17);
+                auto main_send = [&](int i) { std::string tw; tl_prod = 0; tl_idx = i; bare_send(0, i, tw); tl_prod = -1; twin[0].push_back(tw); };
+                // <stall ms> field = how many of the first <per> messages are logged BEFORE the application object exists (default 0:
+                // Qt drops events dispatched in a thread while no QCoreApplication exists, see the report; that is a separate finding)
+                const int pre = std::min(per, g_stall_ms); g_stall_ms = 0; g_stalled = true;
+                for (int i = 0; i < pre; i++) main_send(i);
+                if (!app) app.reset(new QCoreApplication(argc, argv));
+                for (int i = pre; i < per; i++) main_send(i);
+                std::thread second([&] {
+                    tl_rng.seed(seed * 7919u + 104729u + 17);
+                    for (int i = 0; i < per; i++) { std::string tw; tl_prod = 1; tl_idx = i; bare_send(1, i, tw); tl_prod = -1; twin[1].push_back(tw); }
+                });
+                for (int i = per; i < 2 * per; i++) main_send(i);
+                second.join();
+                for (int k = 0; k < 60000 && g_sink_entered.load() < 3 * per; k++) { QCoreApplication::processEvents(QEventLoop::AllEvents, 5); usleep(1000); }
+                QCoreApplication::processEvents(QEventLoop::AllEvents, 5);
+            } else if (mode == "drain") {
                 n = 2; quotas = { per, 1 };
                 g_slow_ms = g_stall_ms > 0 ? g_stall_ms : 100;
                 g_stalled = true;       // no one-off stall in this mode
@@ -350,7 +384,7 @@ int main(int argc, char **argv)
         long cnt = std::min<long>(g_ticket.load(), (long)g_events.size());
         std::ostringstream o;
         o << "RUN " << (drainlast ? "drainlast" : mode.c_str()) << " " << n << " " << per << " " << seed << " " << g_perturb << " " << g_sinkdelay << " events=" << g_ticket.load()
-          << (g_ticket.load() > (long)g_events.size() ? " OVERFLOW" : "") << " stall_ms=" << g_stall_ms << " maxcall_us=" << g_maxcall_us.load() << " max_nesting=" << g_max_nesting.load() << " tfmt=" << g_tfmt << " tcal=" << tcal << " quotas=";
+          << (g_ticket.load() > (long)g_events.size() ? " OVERFLOW" : "") << " stall_ms=" << g_stall_ms << " maxcall_us=" << g_maxcall_us.load() << " max_nesting=" << g_max_nesting.load() << " tfmt=" << g_tfmt << " tcal=" << tcal << " app_at_move=" << app_at_move << " quotas=";
         for (size_t k = 0; k < quotas.size(); k++) o << (k ? "," : "") << quotas[k];
         o << "\nEV ";
         for (long k = 0; k < cnt; k++) o << g_events[k].kind << "." << g_events[k].prod << "." << g_events[k].idx << " ";
